@@ -59,7 +59,9 @@ Definition write_levels (par : parity) (pos : nat) (v : list bid) (wl : nat -> w
 Definition count_levels (k : wres -> bool) (wl : nat -> wres) (nl : nat) : nat :=
   length (filter (fun l => k (wl l)) (seq 0 nl)).
 
-Record wrun := mkWRun { w_run : run_out; w_lost : list wrep; w_nfail : nat }.
+(* w_iters = iterations completed (sync.c:1289 `state->need_write = 1` is reached once per completed iteration: when it is 0
+   and nothing else asked for a save, the state is NOT written at exit) *)
+Record wrun := mkWRun { w_run : run_out; w_lost : list wrep; w_nfail : nat; w_iters : nat }.
 
 Definition run_failing (r : run_out) : bool := negb ((ro_nerr r + ro_nsilent r + ro_nio r =? 0)%nat).
 
@@ -75,16 +77,16 @@ Section SyncW.
            (stripes : list nat) (stop : option nat) (it : nat) (q : list wrep) (nfail : nat)
            (c : content) (par : parity) (ne ns ni : nat) : wrun :=
     match stripes with
-    | [] => mkWRun (mkRun c par ne ns ni false) q nfail
+    | [] => mkWRun (mkRun c par ne ns ni false) q nfail it
     | pos :: rest =>
         let slots := map (fun od => match od with Some d => slot_at d pos | None => SEmpty end) (c_disks c) in
         if negb (stripe_enabled o slots) then sync_loop_w o now fs faults wf m lag rest stop it q nfail c par ne ns ni else
         match stop with
-        | Some O => mkWRun (mkRun c par ne ns ni false) q nfail
+        | Some O => mkWRun (mkRun c par ne ns ni false) q nfail it
         | _ =>
             let r := sync_stripe hashf bs nlev o now ni c (map (fun lv => nth pos lv PNone) par) fs (faults pos) pos in
             let ne1 := (ne + so_nerr r)%nat in let ns1 := (ns + so_nsilent r)%nat in let ni1 := (ni + so_nio r)%nat in
-            if so_bail r then mkWRun (mkRun (so_content r) par ne1 ns1 ni1 true) q nfail else
+            if so_bail r then mkWRun (mkRun (so_content r) par ne1 ns1 ni1 true) q nfail it else
             (* the stripe's blocks are handed to the writers (threaded: queued, executed at the latest when io_stop
                drains; single-thread: written now) and their report is filed for the iteration that will see it ... *)
             let par' := match so_write r with Some v => write_levels par pos v (wf pos) | None => par end in
@@ -101,9 +103,9 @@ Section SyncW.
             (* sync.c:1258-1286 *)
             let ni2 := if (0 <? ceio)%nat then S ni1 else ni1 in
             if (0 <? ceio)%nat && (o_io_error_limit o <=? ni2)%nat
-            then mkWRun (mkRun (so_content r) par' ne1 ns1 ni2 true) q2 nfail' else
+            then mkWRun (mkRun (so_content r) par' ne1 ns1 ni2 true) q2 nfail' it else
             if (0 <? cerr)%nat
-            then mkWRun (mkRun (so_content r) par' (S ne1) ns1 ni2 true) q2 nfail' else
+            then mkWRun (mkRun (so_content r) par' (S ne1) ns1 ni2 true) q2 nfail' it else
             sync_loop_w o now fs faults wf m lag rest (match stop with Some (S k) => Some k | _ => None end)
                         (S it) q2 nfail' (so_content r) par' ne1 ns1 ni2
         end
